@@ -6,6 +6,7 @@ from .. import rfc6455 as R
 from ..harness import S, Result, InvalidScenario, frames_from, STD_RESP_LEN
 from ..recvdrv import run_recv, check_model
 from ..runner import derive_seed
+from ..kernel import SimAbort
 
 ID = "C07"
 LEVEL = "exploration"
@@ -54,8 +55,19 @@ def gen(rng):
     api = rng.choice(("recv", "recv_data", "recv_data_ctrl", "recv_data_frame", "recv_data_frame_ctrl"))
     sizes = [rng.choice((1, 2, 3, 5, 50, 200)) for _ in range(rng.randrange(1, 4))] if rng.random() < 0.7 else []
     accept = [rng.choice((1, 1, 2, 3, 5, 0)) for _ in range(rng.randrange(1, 10))] if rng.random() < 0.6 else []
-    return {"frames": spec, "api": api, "sizes": sizes, "accept": accept, "accept_cyclic": rng.random() < 0.5,
-            "seed": rng.randrange(1 << 30)}
+    sc = {"frames": spec, "api": api, "sizes": sizes, "accept": accept, "accept_cyclic": rng.random() < 0.5,
+          "seed": rng.randrange(1 << 30)}
+    if rng.random() < 0.2:
+        sc["send_eagain"] = sorted(set(rng.randrange(1, 12) for _ in range(rng.randrange(1, 3))))
+    if rng.random() < 0.3:
+        # an application thread sends while the receiving thread answers pings (short writes on)
+        sc["sender"] = {"msgs": rng.randrange(1, 5), "len": rng.choice((0, 3, 40, 300))}
+        sc["policy"] = rng.choice(({"kind": "coop", "p_call": 0.3}, {"kind": "prob", "p_line": 1 / 64, "p_call": 0.3},
+                                   {"kind": "prob", "p_line": 1 / 8, "p_call": 0.3}, {"kind": "pct", "d": 2, "len": 1500}))
+        if not sc["accept"]:
+            sc["accept"] = [1, 2, 3]
+        sc["accept_cyclic"] = True
+    return sc
 
 
 def plan(tier, seed):
@@ -92,7 +104,10 @@ def run(sc, choices=None):
         api = sc["api"]
         cfg = {"api": api, "timeout": 4 * S, "end": "eof", "sizes": list(sc.get("sizes", ())),
                "accept": list(sc.get("accept", ())), "accept_cyclic": bool(sc.get("accept_cyclic")),
-               "max_calls": len(frames) + 4}
+               "max_calls": len(frames) + 4, "send_eagain": list(sc.get("send_eagain", ()))}
+        sender = sc.get("sender")
+        if sender is not None and not (0 <= int(sender["msgs"]) <= 6 and 0 <= int(sender["len"]) <= 2000):
+            raise InvalidScenario("sender")
     except (KeyError, TypeError, ValueError) as e:
         raise InvalidScenario(str(e))
     if api == "recv_frame":
@@ -106,9 +121,31 @@ def run(sc, choices=None):
         for a in m.feed(f):
             if a[0] in ("protocol_error", "payload_error", "unspec"):
                 raise InvalidScenario("illegal stream")
-    out = run_recv(int(sc.get("seed", 1)), stream, cfg, res)
+    side = None
+    app_msgs = []
+    if sender is not None:
+        from .. import seams
+        app_msgs = [(f"APP{j}|" + "z" * int(sender["len"])).encode() for j in range(int(sender["msgs"]))]
+
+        def side(w_, c_):
+            def work():
+                for m_ in app_msgs:
+                    try:
+                        c_.send_binary(m_)
+                    except SimAbort:
+                        raise
+                    except BaseException:  # noqa  (connection may already be closing: not this check's business)
+                        return
+            th = seams.SimThread(target=work, name="app-sender")
+            th.start()
+            return th
+
+    out = run_recv(int(sc.get("seed", 1)), stream, cfg, res, side=side, policy=sc.get("policy") if sender is not None else None,
+                   choices=choices)
     w = out["world"]
     ctx = "ctrl_reported" if api.endswith("_ctrl") else "ctrl_hidden"
+    if sender is not None:
+        return _judge_threaded(res, out, frames, app_msgs, api, sc)
     check_model(res, out, frames, api, False, False, "eof", ctx)
     # ---- ordering on the global event log
     pings = [f for f in frames if f.opcode == 9]
@@ -172,6 +209,36 @@ def run(sc, choices=None):
     return res
 
 
+def _judge_threaded(res, out, frames, app_msgs, api, sc):
+    """receiver thread answers pings while an application thread sends: every pong must still be one well-formed
+    frame with the ping's payload, pongs in ping order, nothing else but the application's frames on the wire."""
+    ctx = "concurrent_sender"
+    w = out["world"]
+    if w.k.abort_reason not in (None, "end"):
+        res.violate("run_does_not_end", ctx, f"aborted: {w.k.abort_reason}")
+    else:
+        wire, pos = R.decode_all(out["wrote"])
+        pings = [f.payload for f in frames if f.opcode == 9]
+        closes = sum(1 for f in frames if f.opcode == 8)
+        if pos != len(out["wrote"]):
+            res.violate("pong_not_well_formed", ctx, f"{len(out['wrote']) - pos} trailing bytes on the wire do not form a frame")
+        else:
+            bad = [f.brief() for f in wire if not f.masked or f.rsv or not f.fin or not f.minimal() or f.opcode not in (2, 8, 10)]
+            pongs = [f.payload for f in wire if f.opcode == 10]
+            apps = [f.payload for f in wire if f.opcode == 2]
+            if bad:
+                res.violate("pong_not_well_formed", ctx, f"malformed / foreign frames on the wire: {bad[:4]}")
+            elif pongs != pings[:len(pongs)] or (len(pongs) != len(pings) and not closes):
+                res.violate("pongs_differ_from_pings", ctx, f"pings {[p[:6].hex() for p in pings]} pongs {[p[:6].hex() for p in pongs]}")
+            elif [a for a in apps if a not in app_msgs] or len(set(apps)) != len(apps):
+                res.violate("pong_not_well_formed", ctx, f"application frames corrupted or duplicated: {[a[:8] for a in apps]}")
+    res.nontrivial = True
+    res.sig = repr(("T", api, [(f.opcode, f.fin) for f in frames], len(app_msgs), res.sched))
+    res.probes["concurrent_sender"] = 1
+    return res
+
+
 def sample_view(sc, r):
     return {"api": sc["api"], "frames": [[f["fin"], f["op"], len(f["hex"]) // 2] for f in sc["frames"]],
-            "chunk_sizes": sc.get("sizes"), "short_write_pattern": sc.get("accept")}
+            "chunk_sizes": sc.get("sizes"), "short_write_pattern": sc.get("accept"), "send_would_block_at_calls": sc.get("send_eagain"),
+            "concurrent_sender": sc.get("sender"), "policy": sc.get("policy")}
